@@ -232,6 +232,16 @@ inline void pin_to(int cpu) {
 }
 
 // ---------------------------------------------------------------- watchdog
+#if defined(__SANITIZE_THREAD__)
+#define VF_UNDER_TSAN 1
+#elif defined(__has_feature)
+#if __has_feature(thread_sanitizer)
+#define VF_UNDER_TSAN 1
+#endif
+#endif
+#ifndef VF_UNDER_TSAN
+#define VF_UNDER_TSAN 0
+#endif
 inline bool read_task_state(pid_t tid, char &state) {
     char path[64]; snprintf(path, sizeof path, "/proc/self/task/%d/stat", (int)tid);
     FILE *f = fopen(path, "r");
@@ -287,7 +297,10 @@ inline void watchdog_main() {
         std::string desc;
         if (process_quiescent(self, desc)) quiet++; else quiet = 0;
         const char *kind = nullptr;
-        if (quiet >= 50) kind = "hang";               // 2.5 s of provable quiescence without progress
+        // 2.5 s of provable quiescence without progress. Under ThreadSanitizer 15 s: while the runtime prints a report (symbolising
+        // through an external process) every thread sleeps on the report lock for seconds - that is not a hang of the program.
+        const int quiet_needed = VF_UNDER_TSAN ? 300 : 50;
+        if (quiet >= quiet_needed) kind = "hang";
         else if (still >= 20 * 240) kind = "livelock"; // 4 minutes without a single finished case
         if (kind) {
             report *r = g_active_report.load(std::memory_order_relaxed);
